@@ -168,7 +168,7 @@ def gen_program(tape, nreaders, lengths, bounds, label, ncalls, allow_lock):
         if kind in ("read", "dask_read", "clone_read"):
             call["o"], call["n"] = gen_offsets(tape, L, B, f"{label}.c{c}")
             if kind == "read" and allow_lock:
-                call["lock"] = tape.chance(1, 3, f"{label}.c{c}.lock")
+                call["lock"] = tape.chance(2, 3, f"{label}.c{c}.lock")
             if kind == "dask_read":
                 call["chunks"] = tape.chance(1, 3, f"{label}.c{c}.chunks")
         elif kind == "dask_multi":
@@ -423,14 +423,15 @@ def run_files(ctx, faults=False):
         rss.append(rs)
         models.append(m)
     switch = [1, 0, 4, 8][tape.draw(4, "switch")]
-    nthreads = 1 + tape.weighted([2, 3, 2, 1], "nthreads")
+    nthreads = 1 + (tape.weighted([2, 3, 2, 1], "nthreads") if ctx.tier == "quick"
+                    else tape.weighted([2, 3, 3, 2, 1, 1], "nthreads"))
     sched = Sched(ctx, switch_eighths=switch)
     sched.stop = False
     fault_rate = 0
     if faults:
         fault_rate = [2, 1, 6][tape.draw(3, "fault_rate")]
     io = iosim.IOSim(ctx, sched, fault_eighths=fault_rate)
-    lock = SimLock(sched) if tape.chance(1, 3, "uselock") else None
+    lock = SimLock(sched) if tape.chance(1, 2, "uselock") else None
     history = []
     case = {"files": fspecs, "readers": rss, "threads": [], "switch_eighths": switch,
             "io_fault_rate_64ths": fault_rate, "shared_lock": lock is not None}
@@ -443,7 +444,7 @@ def run_files(ctx, faults=False):
         base_dicts = [snapshot.snap_reader(r) for r in readers]
         clients = []
         for ti in range(nthreads):
-            ncalls = 1 + tape.draw(5 if ctx.tier == "quick" else 6, f"t{ti}.ncalls")
+            ncalls = 1 + tape.draw(5 if ctx.tier == "quick" else 9, f"t{ti}.ncalls")
             prog = gen_program(tape, nread, [m.length for m in models],
                                [m.boundaries for m in models], f"t{ti}", ncalls, lock is not None)
             case["threads"].append(prog)
